@@ -539,6 +539,46 @@ func (f *fixture) foreignEvents(kind string, good variant, n0 uint64, res *engin
 		undo()
 		res.Transitions++
 	}
+	// 0. the used Ethereum transaction re-packed by its own signer into a Cosmos transaction (alone, in
+	// front of and behind another message, with and without the dynamic-fee option): it must not run again
+	if strings.HasPrefix(kind, "eth-") {
+		em := &evmtypes.MsgEthereumTx{}
+		if err := em.FromEthereumTx(w.SignEth(w.Keys[f.S], f.ethSpec(kind, n0))); err != nil {
+			panic(err)
+		}
+		em.From = ""
+		send := banktypes.NewMsgSend(S, w.Addrs[f.R], sdk.NewCoins(sdk.NewInt64Coin(world.Denom, 1)))
+		fee := sdk.NewCoins(sdk.NewCoin(world.Denom, sdkmath.NewIntFromBigInt(new(big.Int).Mul(f.price, big.NewInt(3000000)))))
+		for _, shape := range []struct {
+			name string
+			msgs []sdk.Msg
+		}{{"[eth]", []sdk.Msg{em}}, {"[eth,send]", []sdk.Msg{em, send}}, {"[send,eth]", []sdk.Msg{send, em}}, {"[eth,send,send]", []sdk.Msg{em, send, send}}} {
+			for _, dyn := range []bool{false, true} {
+				spec := world.CosmosSpec{Key: w.Keys[f.S], Gas: 3000000, Fee: fee, Msgs: shape.msgs}
+				if dyn {
+					spec.ExtOpts = []*codectypes.Any{world.MustAny(&haqqtypes.ExtensionOptionDynamicFeeTx{MaxPriorityPrice: sdkmath.NewInt(1)})}
+				}
+				bz, err := w.CosmosTx(w.Ctx(), spec)
+				if err != nil {
+					res.Outcomes["rewrap:unbuildable"]++
+					continue
+				}
+				undo := w.Branch()
+				preR := f.snap().balR
+				r := w.Deliver(bz)
+				postR := f.snap().balR
+				undo()
+				res.Transitions++
+				res.Evaluations++
+				if r.Code == 0 || postR.Sub(preR).GTE(sdkmath.NewInt(f.amount)) {
+					res.AddViolation(engine.Violation{Signature: fmt.Sprintf("C03|kind=%s|case=rewrap|breach=double", kind),
+						What: "an already executed Ethereum transaction ran again when its signer re-packed it into a Cosmos transaction", Path: append(append([]string{}, p...), fmt.Sprintf("cosmos%s dynfee=%v", shape.name, dyn)),
+						Detail: map[string]any{"code": r.Code, "log": firstLine(r.Log), "recipient_delta": postR.Sub(preR).String()}})
+				}
+				res.Outcomes["rewrap:rejected"]++
+			}
+		}
+	}
 	// 1. a third party grants the signer vesting coins: the plain account becomes a vesting account
 	start := w.Header.Time.Add(-5 * time.Second)
 	grant := vtypes.NewMsgConvertIntoVestingAccount(w.Addrs[T], S, start, nil, sdkvesting.Periods{{Length: 10, Amount: sdk.NewCoins(sdk.NewInt64Coin(world.Denom, 1000))}}, false, false, nil)
